@@ -205,6 +205,25 @@ def _patch_float_to_int():
         return orig_int(val, *a, **k)
 
     reg[int] = _int
+    orig_float = reg.get(float)
+
+    def _float(val=0.0, *a, **k):
+        with NoTracing():
+            import numpy as _np
+
+            if isinstance(val, _np.ndarray) and val.dtype == object and val.size == 1:
+                val = val.reshape(-1)[0]  # float(0-d object array): unwrap, keep the proxy symbolic
+            if isinstance(val, B.RealBasedSymbolicFloat) and not a and not k:
+                return val
+            is_symint = isinstance(val, B.SymbolicInt) and not a and not k
+            plain = not is_symint and not type(val).__module__.startswith("crosshair")
+            if plain:
+                return float(val, *a, **k)
+        if is_symint:
+            return val + 0.0
+        return orig_float(val, *a, **k) if orig_float else float(val, *a, **k)
+
+    reg[float] = _float
     for name, dunder in (("floor", "__floor__"), ("ceil", "__ceil__"), ("trunc", "__trunc__")):
         fn = getattr(math, name)
         orig = reg.get(fn)
